@@ -77,7 +77,9 @@ fat = RecFun('fat', [ARR_REF, H_STR, H_INT, StrS, I], I,
 cnt_ts = RecFun('cnt_ts', [ARR_REF, H_STR, H_STR, StrS, StrS], I,
                 base=lambda at, ty, stt, T, S: z3.IntVal(0),
                 step=lambda at, ty, stt, T, S, k, prev: prev + If(And(ty[at[k]] == T, stt[at[k]] == S), 1, 0),
-                lemmas=[lambda ps, k, f: f(*ps, k) >= 0])
+                lemmas=[lambda ps, k, f: f(*ps, k) >= 0,
+                        # at most as many agents of type T in state S as agents of type T
+                        lambda ps, k, f: f(*ps, k) <= flen(ps[0], ps[1], ps[3], k)])
 
 
 def AT(lv):
